@@ -511,6 +511,15 @@ func (c *Client) completeCommand(cmd command, err error) {
 				PermanentFlags: cmd.data.PermanentFlags,
 			}
 			c.mutex.Unlock()
+		} else if imapErr, ok := err.(*imap.Error); ok && imapErr.Type == imap.StatusResponseTypeNo {
+			// If the SELECT fails, the previously selected mailbox (if any)
+			// is no longer selected
+			c.mutex.Lock()
+			if c.state == imap.ConnStateSelected {
+				c.state = imap.ConnStateAuthenticated
+				c.mailbox = nil
+			}
+			c.mutex.Unlock()
 		}
 	case *unselectCommand:
 		if err == nil {
